@@ -66,7 +66,11 @@ DRIVER = "C04"
 RULE = ("scenarios = handlers x fault table x history; the structured product enumerates failing stage x position "
         "of the failing handler (0..2 of 3) x catch x enqueue x sink kind x ok/fail words of length <= 3 "
         "(exhaustive in thorough, sampled in quick); the random stream adds multi-fault tables, filters, levels, "
-        "re-entrant sinks, removals, stderr modes; non-trivial = at least one stage fails; distinct by scenario")
+        "re-entrant sinks, removals (single, all, with messages pending), stderr modes (incl. breaking at one chunk of a "
+        "report) and stderr flavours (write() only / file-like / one member other than write() failing), raw and coloured "
+        "messages; every real ErrorInterceptor.print call of the call-by-call stream (stderr condition x chunk x error "
+        "kind x record shape x flavour, exhaustive) counts as one case; non-trivial = at least one stage / write / member "
+        "fails; distinct by scenario")
 TRUSTED = [
     "Emit/Model.lean is a sequential model: the enqueue worker runs when the logging thread waits for it "
     "(complete/remove); interleavings are C02/C03's subject",
@@ -96,6 +100,15 @@ class Boom(Exception):
 
 ERR_CLS = {"ValueError": ValueError, "TypeError": TypeError, "KeyError": KeyError, "IndexError": IndexError,
            "AttributeError": AttributeError, "RuntimeError": RuntimeError, "OSError": OSError, "Other": Boom}
+
+
+# what a broken sys.stderr may raise: the error kinds of the fault tables plus a SUBCLASS of OSError (a broken pipe is
+# what a real stderr raises); the model and the property know it as OSError
+STDERR_ERR = dict(ERR_CLS, BrokenPipeError=BrokenPipeError)
+
+
+def model_mode(mode):
+    return mode.replace("BrokenPipeError", "OSError")
 
 
 def mk_exc(kind, h, i, stage):
@@ -207,7 +220,7 @@ CHUNKS = "hrtf"      # header, record line, traceback, footer: the four pieces o
 
 def is_tame(mode):
     """stderr works, is absent, or fails with OSError (as a whole, or from some chunk of a report on)"""
-    return mode in ("ok", "absent", "OSError") or mode.startswith("OSError@")
+    return model_mode(mode) in ("ok", "absent", "OSError") or model_mode(mode).startswith("OSError@")
 
 
 def group_modes(scn):
@@ -245,9 +258,9 @@ def line_of(scn):
     L = lst(["%s,%d" % (k, v) for k, v in sorted(scn["levels"].items(), key=lambda kv: int(kv[0]))])
     O = lst(["+".join(("l%d" % op[1]) if op[0] == "l" else "c" if op[0] == "c" else ("R%d" % op[1]) if op[0] == "R"
                       else "r%d.%d" % (op[1], op[2]) for op in g) for g in scn["groups"]])
-    E = scn["stderr"]
+    E = model_mode(scn["stderr"])
     if scn.get("stderr_seq"):
-        for g, m in zip(scn["groups"], group_modes(scn)):
+        for g, m in zip(scn["groups"], [model_mode(x) for x in group_modes(scn)]):
             for op in g:
                 if op[0] == "l":
                     E += "".join("/%d:%s" % (x, m) for x in inner_closure(scn, op[1]))
@@ -343,7 +356,7 @@ def spec_run(scn):
         # on the stderr of THIS moment; absent / OSError: silent, never propagated; a stderr that breaks in the middle
         # of the report keeps what it had accepted – and still nothing is propagated
         ph = msg is not None and msg in t["strfails"]
-        mode = state["mode"]
+        mode = model_mode(state["mode"])
         if mode == "ok":
             events.append(ev_report(h, msg, kind, ph, src))
         elif "@" in mode:
@@ -499,8 +512,8 @@ class Recorder:
             if report_phase(text) != at:
                 self.c04_chunks.append((threading.current_thread().name, text))
                 return len(text)
-            raise ERR_CLS[kind]("stderr broke at chunk %s" % at)
-        raise ERR_CLS[mode]("stderr is broken")
+            raise STDERR_ERR[kind]("stderr broke at chunk %s" % at)
+        raise STDERR_ERR[mode]("stderr is broken")
 
     def take(self):
         per = {}
@@ -537,10 +550,61 @@ class FileLikeRecorder(FlushRecorder):
 
 
 STDERR_FLAVOURS = {"minimal": Recorder, "flush": FlushRecorder, "filelike": FileLikeRecorder}
+# every member of a file object other than write() that a reporter might be tempted to use
+STDERR_MEMBERS = ["flush", "isatty", "closed", "encoding", "errors", "fileno", "writable", "buffer", "*"]
+
+
+class Trap:
+    """what a hostile stream hands out for an attribute: any use of it raises"""
+
+    def __init__(self, exc):
+        object.__setattr__(self, "c04_exc", exc)
+
+    def _boom(self, *a, **k):
+        raise object.__getattribute__(self, "c04_exc")()
+    __call__ = __bool__ = __str__ = __repr__ = __iter__ = __len__ = __int__ = __index__ = __eq__ = __ne__ = _boom
+    __hash__ = None
+
+    def __getattr__(self, name):
+        raise object.__getattribute__(self, "c04_exc")()
+
+
+def make_hostile(base, member, kind):
+    """a healthy file-like stderr (`base`) in which ONE member other than write() – or every one of them (`*`) –
+    fails with `kind` when it is used: the SECOND fault on the reporting path.  write() keeps working, so on a tree
+    where the reporter uses nothing but write() this changes nothing."""
+    def exc():
+        return STDERR_ERR[kind]("sys.stderr.%s is broken" % member)
+
+    def raising_method(self, *a, **k):
+        raise exc()
+
+    def raising_attr(self):
+        raise exc()
+    ns = {}
+    members = [m for m in STDERR_MEMBERS if m != "*"] if member == "*" else [member]
+    for m in members:
+        ns[m] = raising_method if m in ("flush", "isatty", "fileno", "writable") else property(raising_attr)
+    if member == "*":
+        def __getattr__(self, name):
+            if name.startswith("c04_") or name.startswith("__"):
+                raise AttributeError(name)
+            return Trap(exc)
+        ns["__getattr__"] = __getattr__
+    return type("Hostile_%s_%s" % ("all" if member == "*" else member, kind), (base,), ns)
 
 
 def mk_recorder(scn, mode):
-    return STDERR_FLAVOURS[(scn or {}).get("stderr_flavour", "minimal")](mode)
+    fl = (scn or {}).get("stderr_flavour", "minimal")
+    if fl.startswith("hostile:"):
+        _, member, kind = fl.split(":")
+        return make_hostile(FileLikeRecorder, member, kind)(mode)
+    return STDERR_FLAVOURS[fl](mode)
+
+
+def hostile_flavour(rng):
+    return "hostile:%s:%s" % (rng.choice(STDERR_MEMBERS), rng.choice(["OSError", "OSError", "BrokenPipeError",
+                                                                       "ValueError", "RuntimeError", "AttributeError"]))
 
 
 BLOCK = re.compile(r"--- Logging error in Loguru Handler #(\d+) ---\nRecord was: (.*?)\n(.*?)--- End of logging error ---\n",
@@ -1343,7 +1407,7 @@ class PrintStream:
     def write(self, text):
         ph = report_phase(text)
         if self.c04_fail is not None and ph == self.c04_fail[0]:
-            raise ERR_CLS[self.c04_fail[1]]("stderr broke at chunk %s" % ph)
+            raise STDERR_ERR[self.c04_fail[1]]("stderr broke at chunk %s" % ph)
         self.c04_writes.append((ph, text))
         return len(text)
 
@@ -1351,6 +1415,7 @@ class PrintStream:
 class PrintStreamFile(PrintStream):
     closed = False
     encoding = "utf-8"
+    errors = "backslashreplace"
 
     def flush(self):
         pass
@@ -1358,15 +1423,27 @@ class PrintStreamFile(PrintStream):
     def isatty(self):
         return False
 
+    def writable(self):
+        return True
+
+    def fileno(self):
+        raise OSError("no file descriptor")
+
+
+# flavours of the stderr object in the call-by-call stream: nothing but write(); a healthy file; a healthy file in
+# which one member other than write() (or all of them) raises OSError / a subclass / something else when used
+PRINT_FLAVOURS = ["minimal", "filelike"] + ["hostile:%s:%s" % (m, k) for m in STDERR_MEMBERS
+                                            for k in ("OSError", "BrokenPipeError", "ValueError")]
+
 
 def print_cases():
     out = []
-    fails = [None] + [(c, k) for c in CHUNKS for k in ERR_NAMES]
+    fails = [None] + [(c, k) for c in CHUNKS for k in ERR_NAMES + ["BrokenPipeError"]]
     for present in ("ok", "none", "falsy"):
         for fail in fails:
             for rec in ("dict", "unprintable", "none"):
                 for explicit in (0, 1):
-                    for flavour in ("minimal", "filelike"):
+                    for flavour in PRINT_FLAVOURS:
                         out.append({"present": present, "fail": list(fail) if fail else None, "record": rec,
                                     "explicit": explicit, "flavour": flavour})
     return out
@@ -1377,7 +1454,11 @@ def run_print_case(p):
     the text of a chunk, if anything)"""
     from loguru._error_interceptor import ErrorInterceptor
     fail = tuple(p["fail"]) if p["fail"] else None
-    cls = PrintStreamFile if p.get("flavour") == "filelike" else PrintStream
+    fl = p.get("flavour", "minimal")
+    if fl.startswith("hostile:"):
+        cls = make_hostile(PrintStreamFile, fl.split(":")[1], fl.split(":")[2])
+    else:
+        cls = PrintStreamFile if fl == "filelike" else PrintStream
     stream = None if p["present"] == "none" else cls(fail, truthy=p["present"] == "ok")
     record = None if p["record"] == "none" else {"extra": {"i": 1}, "message": "m1"}
     if p["record"] == "unprintable":
@@ -1423,13 +1504,14 @@ def print_expected(p):
     if p["present"] != "ok":
         return "-:0:-"
     full = CHUNKS if p["fail"] is None else CHUNKS[:CHUNKS.index(p["fail"][0])]
-    if p["fail"] is not None and p["fail"][1] != "OSError":
+    if p["fail"] is not None and model_mode(p["fail"][1]) != "OSError":
         return None
     return "%s:%d:-" % (full or "-", int(p["record"] == "unprintable" and "r" in full))
 
 
 def print_line(p):
-    return "print P=%d F=%s S=%d" % (int(p["present"] == "ok"), "-" if not p["fail"] else "%s:%s" % tuple(p["fail"]),
+    return "print P=%d F=%s S=%d" % (int(p["present"] == "ok"),
+                                     "-" if not p["fail"] else "%s:%s" % (p["fail"][0], model_mode(p["fail"][1])),
                                      int(p["record"] == "unprintable"))
 
 
@@ -1538,7 +1620,8 @@ def scn_of_point(pt, rng):
             else:
                 scn["faults"].append([i, pos, stage, kind_err])
     groups.append([["l", n], ["c"]])       # one more good message: everybody must be usable
-    scn["stderr_flavour"] = rng.choice(["minimal", "minimal", "flush", "filelike"])
+    scn["stderr_flavour"] = rng.choice(["minimal", "minimal", "flush", "filelike", hostile_flavour(rng),
+                                         hostile_flavour(rng)])
     if rng.chance(20):
         c["colorize"] = 1
     for i in range(n + 1):
@@ -1564,8 +1647,11 @@ def random_scn(rng):
     elif r < 13:
         stderr = rng.choice(["ValueError", "RuntimeError"])
     elif r < 21:
-        stderr = "OSError@" + rng.choice(CHUNKS)          # the pipe breaks in the middle of a report
-    elif r < 24:
+        # the pipe breaks in the middle of a report (a real one raises a subclass of OSError)
+        stderr = rng.choice(["OSError", "BrokenPipeError"]) + "@" + rng.choice(CHUNKS)
+    elif r < 23:
+        stderr = "BrokenPipeError"
+    elif r < 26:
         stderr = rng.choice(["ValueError", "RuntimeError"]) + "@" + rng.choice(CHUNKS)
     tame = is_tame(stderr)
     hs = []
@@ -1585,7 +1671,8 @@ def random_scn(rng):
     groups = [[["l", i], ["c"]] for i in range(nm)]
     scn = empty_scn(hs, groups)
     scn["stderr"] = stderr
-    scn["stderr_flavour"] = rng.choice(["minimal", "minimal", "flush", "filelike"])
+    scn["stderr_flavour"] = rng.choice(["minimal", "minimal", "flush", "filelike", hostile_flavour(rng),
+                                         hostile_flavour(rng)])
     scn["noloop"] = int(rng.chance(6)) if not any(c["enqueue"] and c["kind"] == "coroutine" for c in hs) else 0
     for i in range(nm):
         if rng.chance(25):
@@ -1952,15 +2039,19 @@ def run(ctx):
     pcases = print_cases()
     t0 = time.time()
     try:
-        model = drv.run(lines + [print_line(p) for p in pcases])
-        ctx.note("model driver: %d scenarios + %d print calls in %.1fs" % (len(lines), len(pcases), time.time() - t0))
+        plines = sorted({print_line(p) for p in pcases})
+        model = drv.run(lines + plines)
+        pmodel = dict(zip(plines, model[len(lines):]))
+        model = model[:len(lines)] + [pmodel[print_line(p)] for p in pcases]
+        ctx.note("model driver: %d scenarios + %d print calls (%d distinct oracles) in %.1fs"
+                 % (len(lines), len(pcases), len(plines), time.time() - t0))
     except core.DriverError as e:
         # the model no longer builds (a shape the extractor does not recognise): broken tie; the direct
         # oracle below still looks for a failing input
         ctx.broke("driver:C04 (model does not build against the extracted shape)", str(e))
         model = [None] * (len(lines) + len(pcases))
     # ErrorInterceptor.print call by call: every stderr condition x every chunk x every error kind x record shapes
-    # (exhaustive in both tiers: 1188 calls)
+    # x stderr flavours incl. every member other than write() failing (exhaustive in both tiers: ~19 000 calls, 2 s)
     nbad = 0
     for p, mo in zip(pcases, model[len(lines):]):
         if mo == "bad-op":
@@ -1985,6 +2076,8 @@ def run(ctx):
         ctx.case(line_of(scn), nontrivial=is_nontrivial(scn))
         ctx.traces_validated += 1
         ctx.stat("stderr:" + scn["stderr"])
+        fl = scn.get("stderr_flavour", "minimal").split(":")
+        ctx.stat("stderr_flavour:" + fl[0] + ("(" + fl[1] + ")" if len(fl) > 1 else ""))
         if scn.get("stderr_seq"):
             ctx.stat("stderr_reassigned_between_messages")
         if any(not isinstance(r[2], int) for r in scn["reenter"]):
